@@ -107,14 +107,14 @@ LEVEL_TEXT = ("partial: Lean 4 theorems over R about executable models of the ap
               "stored reduction is within 1 um / 0.1 cc of the reduction at the adjusted coordinates (the proof needs the third test "
               "of a2adf726 to be the last of the regenerated list); (iii) what the modelled Acord2 leaves with nothing missing is the "
               "true configuration (Acord feeds the fixed point), and a geometric 2x2 regular instance (two distances to fixed points). "
-              "The adjustment and refine_approx_coordinates enter the loop model as parameters; (r10, working tree) the adjustment is "
+              "The adjustment and refine_approx_coordinates enter the loop model as parameters; since round 10 the adjustment is "
               "instantiated with project_equations o netSolve (C06_refine_adjustment_fixed_point_pipeline: the loop over the executed "
               "pipeline returns with 0 iterations; complete for networks without from_dh/to_dh - PE.Ob carries value() only, with dh "
               "the hypotheses hview / hsub on the presentation map mk are not discharged; refine_approx_coordinates still a parameter); "
               "the Acord bridge is stated on the linearisation's network record (Lin.Net), not on PE.Net, and is not composed with it; "
               "svd is excluded from "
               "C06_exact_network_solution_zero; no bridge theorem Gen.TestLin.<class> = GN.pol<Class> (both readings are executed); "
-              "nothing is proved about the stopping test away from the fixed point. 89 theorems in the four Props files (88 committed + 1 of r10, working tree).")
+              "nothing is proved about the stopping test away from the fixed point. 93 theorems in the five Props files (C06, C06Assembled, C06Refine, C06Network, C06AiMono; round 13).")
 LEVEL_NOTE = ("Theorems are about exact real arithmetic; libm and rounding are not modelled. The end-to-end statement "
               "(adjusted = true, zero residuals, nothing removed, for every algorithm) is explored, not proved; "
               "tolerances used by the oracle: 1e-6 m when exact approximate coordinates are supplied, 1e-5 m otherwise "
@@ -175,8 +175,8 @@ ASSUMPTIONS = ["bearing and direction values lie in [0, 2pi) (one pass of the un
                "refine_approx_coordinates are parameters of the loop model (RA.Env); `if (changed) IS->update_residuals()` is "
                "represented by the adjustment being a function of the current state (caching: C04)",
                "C06_exact_network_solution_zero (no NoAlias hypothesis since round 12); the joint "
-               "non-vacuity instance over R (r10, working tree) is the levelling network Ex.netWexact with a correlated cluster, for cholesky and "
-               "gso (existence of the answer by C02_net_answered_iff_resolves, no solver run evaluated); envelope not witnessed; no joint "
+               "non-vacuity instance over R is the levelling network Ex.netWexact with a correlated cluster, for envelope, cholesky and "
+               "gso (round 13; existence of the answer by C02_net_answered_iff_resolves, no solver run evaluated); no joint "
                "instance with a distance / direction row",
                "C06I.ExactCl: two directions (azimuths) observed at one point go to targets >= 1e-6 apart and not in one direction",
                "intersection stream: point ids of an observation are distinct; the static small-angle limit starts at 0.15"]
